@@ -434,23 +434,30 @@ class Circuit:
         errcnt = 0
         get_time = asyncio.get_running_loop().time
         start_time = get_time()
-        for blk, task, timeout in sorted(btt_list, key=operator.itemgetter(2), reverse=True):
-            # sorted from longest timeout
-            if not task.done():
-                try:
-                    await asyncio.wait_for(task, timeout - get_time() + start_time)
-                except asyncio.TimeoutError:
-                    errcnt += 1
-                    blk.log_warning(
-                        "%s timeout, check timeout value (%.1f s)", jobname, timeout)
-                except Exception:
-                    # will be logged below
-                    pass
-            if not task.cancelled():
-                if (err := task.exception()) is not None:
-                    errcnt += 1
-                    blk.log_error("%s error: %s", jobname, err, exc_info=err)
-                    err = None  # break a reference cycle
+        try:
+            for blk, task, timeout in sorted(
+                    btt_list, key=operator.itemgetter(2), reverse=True):
+                # sorted from longest timeout
+                if not task.done():
+                    try:
+                        await asyncio.wait_for(task, timeout - get_time() + start_time)
+                    except asyncio.TimeoutError:
+                        errcnt += 1
+                        blk.log_warning(
+                            "%s timeout, check timeout value (%.1f s)", jobname, timeout)
+                    except Exception:
+                        # will be logged below
+                        pass
+                if not task.cancelled():
+                    if (err := task.exception()) is not None:
+                        errcnt += 1
+                        blk.log_error("%s error: %s", jobname, err, exc_info=err)
+                        err = None  # break a reference cycle
+        finally:
+            # when cancelled, do not leave the not yet awaited tasks running
+            for _blk, task, _timeout in btt_list:
+                if not task.done():
+                    task.cancel()
         if errcnt:
             _logger.error("%d block %s error(s) suppressed", errcnt, jobname)
 
